@@ -110,7 +110,10 @@ class RealEnv:
 
         class _Path:
             join = staticmethod(os.path.join)
-            expanduser = staticmethod(os.path.expanduser)
+
+            @staticmethod
+            def expanduser(p):          # "~" is a scratch directory, never the real home
+                return os.path.join(env.root, "default-home") + p[1:] if p.startswith("~") else p
         _Path.exists = staticmethod(exists_)
 
         class _OS:
@@ -411,28 +414,36 @@ class DataHome(Family):
         return [{"first": f} for f in ("unset", "A")]
 
     def run(self, ctx, inst, first):
-        if not ctx.symbolic:
-            ctx.claim("second-load-lives-under-the-second-home", True)      # model-only family (needs a controllable environment)
-            return
         env = make_env(ctx)
-        remA, remB = register(env, "dsA"), register(env, "dsB")
-        with env.installed() as base:
-            if first == "unset":
-                env.env_set = False
-            else:
-                env.data_home = "/HOME-A"
-            h1 = base.get_data_home()
-            st, _ = call(base, remA, "cache-A", "fam")
-            ctx.claim("first-load-succeeds", st == "ok")
-            before = set(env.files) | set(env.dirs)
-            env.env_set, env.data_home = True, "/HOME-B"
-            env.restart()
-            h2 = base.get_data_home()
-            st, res = call(base, remB, "cache-B", "fam")
-            new = (set(env.files) | set(env.dirs)) - before
-            ctx.claim("get_data_home-follows-the-variable", h2 == "/HOME-B" and h1 != h2, {"h1": h1, "h2": h2})
-            ctx.claim("second-load-lives-under-the-second-home", st == "ok" and bool(new) and all(p.startswith("/HOME-B") for p in new),
-                      {"new": sorted(new)[:4]})
+        try:
+            remA, remB = register(env, "dsA"), register(env, "dsB")
+            home_a = "/HOME-A" if ctx.symbolic else os.path.join(env.root, "home-a")
+            home_b = "/HOME-B" if ctx.symbolic else os.path.join(env.root, "home-b")
+
+            def listing():
+                if ctx.symbolic:
+                    return set(env.files) | set(env.dirs)
+                return {os.path.join(d, f) for d, _, fs in os.walk(env.root) for f in fs}
+
+            with env.installed() as base:
+                if first == "unset":
+                    env.env_set = False
+                else:
+                    env.data_home = home_a
+                h1 = base.get_data_home()
+                st, _ = call(base, remA, "cache-A", "fam")
+                ctx.claim("first-load-succeeds", st == "ok")
+                before = listing()
+                env.env_set, env.data_home = True, home_b
+                env.restart()
+                h2 = base.get_data_home()
+                st, res = call(base, remB, "cache-B", "fam")
+                new = listing() - before
+                ctx.claim("get_data_home-follows-the-variable", h2 == home_b and h1 != h2, {"h1": h1, "h2": h2})
+                ctx.claim("second-load-lives-under-the-second-home", st == "ok" and bool(new) and all(p.startswith(home_b) for p in new),
+                          {"new": sorted(new)[:4]})
+        finally:
+            env.cleanup()
 
 
 class Kills(Family):
